@@ -192,6 +192,181 @@ Example C02_example_automaton_rejects :
      = QF 1 7 ODied.
 Proof. vm_compute. repeat split; reflexivity. Qed.
 
+(** ================= tie to the REGENERATED code (translate/run_record.py -> Gen/RunRecord.v,
+    translate/callback_skeleton.py -> Gen/CallbackSkeleton.v; Life/RecordSyntax.v, RecordInterp.v,
+    RecordRun.v, RecordTie.v).  The record-keeping code of /repo is translated statement by
+    statement at every check; the theorems below are about THOSE definitions:
+    control = the skeleton of Callback._run/_finish and RunSession.run under any raising await
+    (oracle [o], Life/FailStart.v), data = the statements of RunInfoRegistrar, RunSession.run,
+    _on_start_run/_on_end_run, RunningProcess.__await__/_log_exited, RunResult, Result, Imp and
+    Nextline interpreted along the trace of control points, for every world [w] = (outcome of the
+    child, exit code, whether the exit code is a key of _exitcode_to_name, run number, script). *)
+From Coq Require Import String List.
+From NL Require Import Life.RecordSyntax Life.RecordInterp Gen.RunRecord Life.RecordTie.
+Import ListNotations.
+Open Scope string_scope.
+
+(** (1) `_run_finished.set()` is executed on every path out of `_finish`, whether the `finish`
+    trigger raises or not ... *)
+Theorem C02_tie_finish_sets_event : forall o,
+  FS.acts (snd (fst (FS.exec CS.finish_skeleton o))) = [CS.SetRunArgNone; CS.Finish; CS.SetRunFinished].
+Proof. exact finish_skeleton_sets. Qed.
+
+(** ... in the whole of Callback._run, whichever awaits raise: exactly once, after the single
+    `finish` trigger, with nothing after it *)
+Theorem C02_tie_run_finished_set_once_last : forall o,
+  FS.run_arg_withdrawn_before_finished (FS.trace o) = true /\ FS.nothing_after_finished (FS.trace o) = true.
+Proof. exact run_finished_set_once_last. Qed.
+
+(** ... and it is THE event wait_for_run_finish (Imp.wait, close) waits for: created by start_run
+    first, set on every path out of `_finish` and of `_run`, by no other method of Callback;
+    on_exit_finished swallows whatever the run task raised *)
+Theorem C02_tie_run_finished_event :
+  exists t, cb_method "wait_for_run_finish" = [CbWaitEvent t] /\
+    (exists rest, cb_method "start_run" = CbNewEvent t :: rest) /\
+    (forall o set, is_set t (cexec 20%nat (cb_method "_finish") set o) = true) /\
+    (forall o set, is_set t (cexec 20%nat (cb_method "_run") set o) = true) /\
+    forallb (fun m => String.eqb (fst m) "_finish" || negb (sets 20%nat t (snd m))) callback = true /\
+    (forall o set, fst (fst (cexec 20%nat (cb_method "on_exit_finished") set o)) = false).
+Proof. exact run_finished_event. Qed.
+
+(** the two translations of Callback agree; the data statements of RunSession.run are keyed by
+    the control points of the skeleton, in its order, continuations on awaits *)
+Theorem C02_tie_callback_translations_agree :
+  erase 20%nat (cb_method "start_run") = Some CS.start_run_skeleton /\
+  erase 20%nat (cb_method "_run") = Some CS.run_skeleton /\
+  erase 20%nat (cb_method "_finish") = Some CS.finish_skeleton.
+Proof. exact callback_translations_agree. Qed.
+
+Theorem C02_tie_session_positions_agree :
+  map (fun x => fst (fst x)) session = map fst skeleton_positions /\
+  forallb (fun x => match x with
+                    | (p, Returned, _) => existsb (fun y => pos_eqb p (fst y) && snd y) skeleton_positions
+                    | _ => true
+                    end) session = true.
+Proof. exact session_positions_agree. Qed.
+
+(** THE statement about the data, for every world and every oracle: no data statement raises by
+    itself (in particular not the await of the process handle), the run_info publications are
+    exactly [expected_pubs] (a function of the world and the history), and result() /
+    format_exception() afterwards are exactly [expected_api] *)
+Theorem C02_tie_every_run_good : forall w o, good_run w (FS.trace o).
+Proof. exact every_run_good. Qed.
+
+(** (2) the run_info publications of one run: exactly [expected_pubs] ... *)
+Theorem C02_tie_run_info_exact : forall w o,
+  exists d, data_run w (FS.trace o) = Ok d /\ d_raised d = None /\ d_eff d = expected_pubs w (FS.trace o).
+Proof. exact run_info_exact. Qed.
+
+(** ... i.e. a prefix of initialized, running, finished under one run number and script:
+    `running` iff on_start_run was reached, `finished` iff on_end_run was reached, nothing twice ... *)
+Theorem C02_tie_run_info_prefix : forall w o,
+  exists d, data_run w (FS.trace o) = Ok d /\
+    d_eff d = firstn (1 + (if FS.called CS.StartRunHook (FS.trace o) then 1 else 0)
+                        + (if FS.called CS.EndRunHook (FS.trace o) then 1 else 0))%nat (full_record w).
+Proof. exact run_info_prefix. Qed.
+
+(** ... and when no await raises: exactly the three, each once, for EVERY outcome of the child
+    and EVERY exit code (zero, negative = signal, positive = os._exit(n); in the dict or not) *)
+Theorem C02_tie_run_info_once : forall w,
+  exists d, data_run w (FS.trace []) = Ok d /\ d_raised d = None /\ d_eff d = full_record w.
+Proof. exact run_info_once. Qed.
+
+(** (3) whenever the `finished` record is published it carries the result / exception of THIS
+    run's child, result() and format_exception() afterwards report the same, and the record's
+    result is the JSON of what result() returns *)
+Theorem C02_tie_result_matches : forall w o,
+  FS.called CS.EndRunHook (FS.trace o) = true ->
+  exists d, data_run w (FS.trace o) = Ok d /\
+    In (run_info w "finished" (spec_result (rw_child w)) (spec_exception (rw_child w))) (d_eff d) /\
+    api d "result" = Ok (spec_value (rw_child w)) /\
+    api d "format_exception" = Ok (spec_exception (rw_child w)) /\
+    spec_result (rw_child w) = VJson (spec_value (rw_child w)).
+Proof. exact result_matches. Qed.
+
+(** empty (JSON null, '', None) when the process died, whatever the exit code *)
+Theorem C02_tie_result_empty_when_died : forall w o,
+  rw_child w = ChDied \/ (exists e, rw_child w = ChRaised e) ->
+  FS.called CS.EndRunHook (FS.trace o) = true ->
+  exists d, data_run w (FS.trace o) = Ok d /\
+    In (run_info w "finished" (VJson VNone) (VStr "")) (d_eff d) /\
+    api d "result" = Ok VNone /\ api d "format_exception" = Ok (VStr "").
+Proof. exact result_empty_when_died. Qed.
+
+(** a session whose process was never awaited to the end reports nothing (not the previous run's) *)
+Theorem C02_tie_result_none_when_not_awaited : forall w o,
+  FS.called CS.InitSession (FS.trace o) = true -> FS.returned CS.AwaitProcess (FS.trace o) = false ->
+  exists d, data_run w (FS.trace o) = Ok d /\ api d "result" = Ok VNone /\ api d "format_exception" = Ok VNone.
+Proof. exact result_none_when_not_awaited. Qed.
+
+(** (4) awaiting the process handle (RunningProcess.__await__, _log_exited, _format_time) raises
+    for NO task result, NO exit code, whether or not the code is a key of _exitcode_to_name, and
+    yields ExitedProcess(returned, raised) = the task's pair (Proc/Model.v [await_handle]) *)
+Theorem C02_tie_await_never_raises : forall a b code look,
+  await_handle a b code look =
+  Ok (VObj "ExitedProcess" [("returned", a); ("raised", b);
+                            ("process", VObj "Process" [("exitcode", VInt code); ("pid", VInt 4242)])]).
+Proof. exact await_never_raises. Qed.
+
+Theorem C02_tie_await_in_run_never_raises : forall w o,
+  exists d, data_run w (FS.trace o) = Ok d /\ d_raised d = None.
+Proof. exact await_in_run_never_raises. Qed.
+
+(** what the abstraction of the child rests on (Proc/Model.v = C17's model of run_in_process, tied
+    to Gen/RunSkeleton.v): the task awaited by __await__ never raises, always returns, and its
+    pair has one of the three shapes of [child]; (None, None) when the process died *)
+Theorem C02_tie_task_of_run_in_process : forall w,
+  PM.run_prog = RS.run_skeleton /\ PM.call_prog = RS.call_skeleton /\ PM.await_prog = RS.await_skeleton /\
+  (forall e, PM.run_task w <> PM.TRaised e) /\ PM.run_task w <> PM.TNoReturn /\
+  (forall r e, PM.run_task w = PM.TDone r e ->
+     exists ch, (is_some r, is_some e) = task_shape ch /\ (PM.process_died w = true -> ch = ChDied)).
+Proof. exact task_of_run_in_process. Qed.
+
+(** simulation with Life/Model.v: the publications of the regenerated code are, through
+    [abs_pub], the run_info publications of the model's initialize_run / RT_Created step /
+    RT_WaitChild step; where the model stores the outcome token in exited_proc, the code's
+    result()/format_exception() report what its finished record shows *)
+Theorem C02_tie_model_simulation : forall w sid o (s1 s2 s3 : M.state) ra,
+  rw_no w = M.ra_no ra -> sid (script_val w) = M.ra_stmt ra ->
+  M.c_next s1 = M.ra_no ra -> M.c_stmt s1 = M.ra_stmt ra ->
+  M.runt s2 = Some M.RT_Created -> M.run_arg s2 = Some ra ->
+  M.runt s3 = Some M.RT_WaitChild -> M.run_call_pending s3 = false -> M.pending_exit s3 = Some o -> M.run_arg s3 = Some ra ->
+  exists d, data_run w (FS.trace []) = Ok d /\
+    map (abs_pub sid o) (d_eff d) =
+      [hd_error (ri_of (M.trace (M.initialize_run s1)));
+       hd_error (ri_of (M.trace (M.do_step_run s2)));
+       hd_error (ri_of (M.trace (M.do_step_run s3)))] /\
+    M.exited_proc (M.do_step_run s3) = Some o /\
+    exists res exc, nth_error (d_eff d) 2%nat = Some (run_info w "finished" res exc) /\
+      api d "format_exception" = Ok exc /\ (r <- api d "result" ;; Ok (VJson r)) = Ok res.
+Proof. exact model_simulation. Qed.
+
+(** non-vacuity: os._exit(3) -- initialized, running, finished ('null', ''), result() None,
+    format_exception() '' ... *)
+Example C02_tie_example_died_exit_3 :
+  let w := mkRun ChDied 3 false 1 (Some "import os; os._exit(3)") VNone in
+  (d <- data_run w (FS.trace []) ;; r <- api d "result" ;; f <- api d "format_exception" ;; Ok (d_eff d, r, f))
+  = Ok ([run_info w "initialized" VNone VNone; run_info w "running" VNone VNone;
+         run_info w "finished" (VJson VNone) (VStr "")], VNone, VStr "").
+Proof. exact example_died_exit_3. Qed.
+
+(** ... the await of the process itself raising (oracle): the record stops at `running` ... *)
+Example C02_tie_example_wait_cancelled :
+  let w := mkRun ChDied (-2) true 1 None VNone in
+  let t := FS.trace [false; false; false; true] in
+  FS.returned CS.AwaitProcess t = false /\
+  (d <- data_run w t ;; f <- api d "format_exception" ;; Ok (d_eff d, f))
+  = Ok ([run_info w "initialized" VNone VNone; run_info w "running" VNone VNone], VNone).
+Proof. exact example_wait_cancelled. Qed.
+
+(** ... and the interpreter does tell `d[k]` from `d.get(k)`: with the former in _log_exited the
+    await raises KeyError for exit code 3 (seed C02-4) *)
+Example C02_tie_example_indexing_would_raise :
+  (let h := handle_of (VTuple [VNone; VNone]) 3 in
+   eval prog_indexing (mkWorld h false) FUEL (mkCfg [("h", h)] [] []) (EAwaitHandle (EName "h"))) = Exn XKey
+  /\ await_handle VNone VNone 3 false <> Exn XKey.
+Proof. exact indexing_would_raise. Qed.
+
 Print Assumptions C02_run_info_once.
 Print Assumptions C02_run_info_numbering.
 Print Assumptions C02_result_matches.
@@ -208,3 +383,22 @@ Print Assumptions C02_accepted_run_finishes.
 Print Assumptions C02_example_liveness_nonvacuous.
 Print Assumptions C02_example_nonvacuous.
 Print Assumptions C02_example_automaton_rejects.
+Print Assumptions C02_tie_finish_sets_event.
+Print Assumptions C02_tie_run_finished_set_once_last.
+Print Assumptions C02_tie_run_finished_event.
+Print Assumptions C02_tie_callback_translations_agree.
+Print Assumptions C02_tie_session_positions_agree.
+Print Assumptions C02_tie_every_run_good.
+Print Assumptions C02_tie_run_info_exact.
+Print Assumptions C02_tie_run_info_prefix.
+Print Assumptions C02_tie_run_info_once.
+Print Assumptions C02_tie_result_matches.
+Print Assumptions C02_tie_result_empty_when_died.
+Print Assumptions C02_tie_result_none_when_not_awaited.
+Print Assumptions C02_tie_await_never_raises.
+Print Assumptions C02_tie_await_in_run_never_raises.
+Print Assumptions C02_tie_task_of_run_in_process.
+Print Assumptions C02_tie_model_simulation.
+Print Assumptions C02_tie_example_died_exit_3.
+Print Assumptions C02_tie_example_wait_cancelled.
+Print Assumptions C02_tie_example_indexing_would_raise.
